@@ -191,6 +191,48 @@ def check_differential(case, ctx):
     ctx.require(abs(w - rw) <= tol, "w_value", lambda: "wasserstein=%r independent assignment reference=%r |X|=%d |Y|=%d" % (w, rw, len(X), len(Y)))
 
 
+def spec_large():
+    big = st.sampled_from([100, 110, 123, 150, 200, 260, 300])
+    return st.fixed_dictionaries({
+        "seed": st.integers(0, 2 ** 32 - 1), "sizes": st.lists(big, min_size=2, max_size=2),
+        "mode": st.sampled_from(["lattice", "float", "near", "jitter"]), "L": st.integers(20, 60), "k": st.sampled_from([0, 0, 1, -1, -3]),
+        "shift": st.integers(-50, 50)})
+
+
+def expand_large(sp):
+    """as expand(); mode 'jitter': the second diagram is a jittered, shuffled copy of the first plus a few short bars
+    (the regime of a real comparison: most points matched across, in both coordinates)"""
+    if sp["mode"] != "jitter":
+        return expand(sp)
+    rng = random.Random(sp["seed"])
+    n = sp["sizes"][0]
+    X = []
+    for _ in range(n):
+        b = rng.uniform(0, 100)
+        X.append([b, b + rng.uniform(2, 40)])
+    Y = [[b + rng.uniform(-1, 1), d + rng.uniform(-1, 1)] for b, d in X]
+    Y = [[b, max(b, d)] for b, d in Y]
+    rng.shuffle(Y)
+    for _ in range(rng.randint(0, 4)):
+        b = rng.uniform(0, 100)
+        Y.append([b, b + rng.uniform(0, 1.5)])
+    return [X, Y]
+
+
+def check_differential_large(case, ctx):
+    X, Y = expand_large(case["spec"])
+    ctx.label("mode:" + case["spec"]["mode"], "MN>=10000" if len(X) * len(Y) >= 10000 else None, "M+N>=475" if len(X) + len(Y) >= 475 else None)
+    ctx.nontrivial(len(X) * len(Y) >= 10000)
+    tol = 1e-9 * scale_of(X, Y)
+    b = dist(ctx, "b", X, Y)
+    rb = M.bottleneck_ref(X, Y)
+    ctx.require(abs(b - rb) <= tol, "b_value", lambda: "bottleneck=%r reference=%r |X|=%d |Y|=%d" % (b, rb, len(X), len(Y)))
+    w = dist(ctx, "w", X, Y)
+    rw = M.wasserstein_ref(X, Y)
+    ctx.require(abs(w - rw) <= tol, "w_value", lambda: "wasserstein=%r reference=%r |X|=%d |Y|=%d" % (w, rw, len(X), len(Y)))
+    ctx.require(b <= w + tol, "b_exceeds_w", lambda: "bottleneck %r > wasserstein %r" % (b, w))
+
+
 _q = 1 if TIER == "quick" else 1
 CLAUSES = [
     Clause("metric", s_metric, check_metric, quick=800, thorough=960,
@@ -203,4 +245,8 @@ CLAUSES = [
     Clause("differential", spec(2).map(lambda s: {"spec": s}), check_differential, quick=1600, thorough=1600,
            rule="value oracle beyond brute force: bottleneck vs one-sided-matching reference (any size), wasserstein vs the independent assignment reference; "
                 "non-trivial = >= 20 points each"),
+    Clause("differential_large", spec_large().map(lambda s: {"spec": s}), check_differential_large, quick=48, thorough=160,
+           rule="100..300 points per diagram (so M*N >= 10^4 and, for the largest, M+N >= 475), incl. a 'jitter' mode (second diagram = jittered "
+                "shuffled copy + short bars): bottleneck vs the independent one-sided-matching reference, Wasserstein vs own Kuhn-Munkres; "
+                "non-trivial = M*N >= 10000"),
 ]
